@@ -179,7 +179,9 @@ CHECKS = {
              "RefsExist, DeleteUndoesInsert, DeleteKeepsOthers, IntegrateIsPure ... on all histories to depth 3-4 over operation x "
              "view x value; the state graph to depth 2 (full alphabet) and depth 3 (channel alphabet, sampled in quick) is executed "
              "on the real cell: after every call every public table, get_all_parameters/get_all_states and (where recordings "
-             "exist) integrate's output must equal the specification's successor state / integer observation.",
+             "exist) integrate's output must equal the specification's successor state / integer observation. Recorded random histories "
+             "(code -> spec) are validated by TLC against Trace_Module.tla. Second stage: set_ncomp sequences (SetNcomp.tla) on cells "
+             "that carry channels, per-branch parameters and groups, compared with the directly built module.",
         note="Trusted: TLC; probe channels make the dynamics integer exact; one irregular cell, 7 views. Known finding F20 "
              "is listed in known_findings.json."),
     "C10": dict(
